@@ -37,6 +37,7 @@ structure StoreSt where
   slotInfo : List (String × (String × String × String)) := []   -- slot ↦ (kind, parent slot, name token), from mk
   linkObs : List (String × List String) := []      -- link-container answers obtained through handles since the last mutation (query text ↦ answer)
   goneIds : List String := []                     -- ids that vanished between the dumps around the last delete (victim and everything below it)
+  lastLinked : Option (String × String × String) := none   -- the last accepted `link … handle`: (relation, id of the holder, id of the entity handed in)
   lastDeleted : Option String := none             -- the slot whose entity the last mutating op deleted (answer `ok 1`)         -- id ↦ "kind name created" as first observed
 
 /-- props family (C14): the property model and the history of calls the IMPLEMENTATION accepted (most recent first) -/
